@@ -254,6 +254,7 @@ FA(tag, fmt) == [tag |-> tag, fmt |-> fmt, slash |-> FALSE, amt |-> TRUE]
 
 Codes13C == {<<"S", "N", "D", "T", "I", "M", "E">>, <<"C", "L", "S", "T", "I", "M", "E">>, <<"R", "N", "C", "T", "I", "M", "E">>,
              <<"R", "E", "J", "T", "I", "M", "E">>, <<"C", "U", "T", "T", "I", "M", "E">>}
+Codes23B == {<<"C", "R", "E", "D">>, <<"C", "R", "T", "S">>, <<"S", "P", "A", "Y">>, <<"S", "P", "R", "I">>, <<"S", "S", "T", "D">>}
 Codes71A == {<<"B", "E", "N">>, <<"O", "U", "R">>, <<"S", "H", "A">>}
 
 Formats == {
@@ -270,7 +271,9 @@ Formats == {
   F("21C", <<Cl("x", 1, 35)>>), F("21D", <<Cl("x", 1, 35)>>), F("21E", <<Cl("x", 1, 35)>>),
   F("21F", <<Cl("x", 1, 16)>>), F("21R", <<Cl("x", 1, 16)>>),
   F("23E", <<Cl("a", 4, 4), Opt(<<Lit("/"), Cl("x", 1, 35)>>)>>),   \* documented 4!c; every defined code is 4 letters
+  F("23B", <<Code(Codes23B)>>),
   F("25",  <<Cl("x", 1, 35)>>),
+  F("25P", <<Cl("x", 1, 35), NL, Sem("BIC", 11)>>),
   F("25A", <<Lit("/"), Cl("x", 1, 34)>>),
   F("26T", <<Cl("c", 3, 3)>>),
   F("28",  <<Cl("n", 1, 5), Opt(<<Lit("/"), Cl("n", 1, 2)>>)>>),
@@ -320,8 +323,7 @@ Formats == {
 }
 
 (* field types with formats the algebra does not express faithfully (listed as not covered):
-   23, 23B (code list + conditional parts), 25P, 28D (index <= total),
-   50F, 61, 77T (9000z) *)
+   23 (days allowed for one function only), 28D (index <= total), 50F (structured lines with codes), 61 (stacked optional parts), 77T (9000z) *)
 
 VARIABLES fld, content
 vars == <<fld, content>>
